@@ -338,9 +338,9 @@ theorem ThreadInv.new (g : GB) (proc : Nat) (tid : IdStr) (start : Nat) (main : 
   · exact ⟨⟨rfl, rfl, rfl, rfl, fun _ hx => (nomatch hx), fun _ hx => (nomatch hx), fun _ hx => (nomatch hx)⟩,
       ⟨rfl, fun _ hx => (nomatch hx), fun _ hx => (nomatch hx), fun _ hx => (nomatch hx)⟩,
       rfl, rfl, rfl, rfl, rfl, rfl, rfl, rfl, fun _ hx => (nomatch hx), fun _ hx => (nomatch hx),
-      fun _ hx => (nomatch hx)⟩
+      fun _ hx => (nomatch hx), List.nodup_nil⟩
   · exact ⟨rfl, rfl, rfl, fun _ hx => (nomatch hx), fun _ hx => (nomatch hx), fun _ hx => (nomatch hx)⟩
-  · exact ⟨rfl, fun _ hx => (nomatch hx), (by intro i q hq; simp at hq), fun _ hx => (nomatch hx)⟩
+  · exact ⟨rfl, fun _ hx => (nomatch hx), (by intro i q hq; simp at hq), fun _ hx => (nomatch hx), StCanon.empty⟩
   · exact ⟨rfl, rfl, rfl, rfl, fun _ hx => (nomatch hx), fun _ hx => (nomatch hx), fun _ hx => (nomatch hx),
       ⟨rfl, rfl⟩⟩
 
